@@ -388,8 +388,15 @@ func RecvGenerator(dir string, o GenOpts, e FileEntry, touchUp bool) (wire []byt
 // (internal/maincmd daemon mode, internal/rsynctest): authorizedKeysPath ""
 // selects an anonymous listener. It returns when ctx is cancelled.
 func ServeSSH(ctx context.Context, ln net.Listener, hostKeyPath, authorizedKeysPath string, modules []rsyncd.Module, stderr io.Writer) error {
+	return ServeSSHListener(ctx, ln, hostKeyPath, authorizedKeysPath, "", modules, stderr)
+}
+
+// ServeSSHListener is ServeSSH for a listener section that (also) sets
+// anon_ssh = alsoAnonAddr next to authorized_ssh; the daemon entry point
+// treats a listener with an authorized_ssh address as authorised.
+func ServeSSHListener(ctx context.Context, ln net.Listener, hostKeyPath, authorizedKeysPath, alsoAnonAddr string, modules []rsyncd.Module, stderr io.Writer) error {
 	osenv := &rsyncos.Env{Stdout: io.Discard, Stderr: stderr}
-	lc := rsyncdconfig.Listener{HostKeyPath: hostKeyPath}
+	lc := rsyncdconfig.Listener{HostKeyPath: hostKeyPath, AnonSSH: alsoAnonAddr}
 	if authorizedKeysPath == "" {
 		lc.AnonSSH = ln.Addr().String()
 	} else {
